@@ -58,6 +58,19 @@ def _shard_a(args):
                 r = judge(c03.make_case(d, st, ins.name()), vb, "A")
                 n += 1
                 ok += r == "ok"
+            # counted transfers with more than 256 elements: the count ends at 0 and an auto-modified pointer moves by I
+            if ins.name() in ("MVL", "MVLD"):
+                for big in c03.LARGE_I:
+                    c, o = c03.large_case(d, sts[0], ins.name(), big)
+                    n += 1
+                    if o.skip:
+                        continue
+                    _acc, val = I.large_count_diffs(o, c)
+                    ok += not val
+                    for kind, what in val:
+                        w = c.witness()
+                        w["large_count"] = True
+                        vb.add(f"C04/{kind}/{c03.sig_tag(o, d)}", f"[A] {d.hex()} '{o.text}': {what}", w)
     return {"n": n, "judged": ok, "vb": vb}
 
 
@@ -349,6 +362,12 @@ def run(ctx) -> None:
 def replay(ctx, w) -> Optional[str]:
     c = I.Case.from_witness(w)
     vb = VB()
+    if w.get("large_count"):
+        o = I.run_case(c, large_count=True)
+        if o.skip:
+            return None
+        _acc, val = I.large_count_diffs(o, c)
+        return f"'{o.text}': {val[0][1]}" if val else None
     judge(c, vb, "replay")
     for sig, (cnt, wl) in vb.d.items():
         return wl[0][0]
